@@ -351,6 +351,28 @@ def check_find(rep, methods):
     tail = body[li + 1:]
     ret = tail[-1] if tail else None
     ok_ret = False
+    # `if <remainder> and not <children>: return [(part, properties), (<remainder>, {})]`: what the recursion returns for a non-empty
+    # remainder and an empty list to search (base case false, the loop does not run, the remainder is one property-less part)
+    from ..match import _Subst as _S
+    import copy as _copy
+    pre_sub = {}
+    kept = []
+    for st in tail[:-1]:
+        if isinstance(st, ast.Assign) and len(st.targets) == 1 and isinstance(st.targets[0], ast.Name):
+            pre_sub[st.targets[0].id] = _S(dict(pre_sub)).visit(_copy.deepcopy(st.value))
+            kept.append(st)
+            continue
+        if isinstance(st, ast.If) and not st.orelse and len(st.body) == 1 and isinstance(st.body[0], ast.Return) and st.body[0].value is not None:
+            t_ = src(_S(dict(pre_sub)).visit(_copy.deepcopy(st.test)))
+            r_ = src(_S(dict(pre_sub)).visit(_copy.deepcopy(st.body[0].value)))
+            rem = '%s[len(%s):]' % (number, names['part'])
+            if t_ in ('%s and (not %s)' % (rem, names['acc_children']), '%s and not %s' % (rem, names['acc_children']),
+                      'not %s and %s' % (names['acc_children'], rem), '(not %s) and %s' % (names['acc_children'], rem)) \
+                    and r_ in ('[(%s, %s), (%s, {})]' % (names['part'], names['acc_props'], rem), '[(%s, %s), (%s, dict())]' % (names['part'], names['acc_props'], rem)):
+                rep.ok('DT.result', '%s:%d _find' % (FILE, st.lineno), 'fast path for an empty list of children returns what the recursion returns')
+                continue
+        kept.append(st)
+    tail = kept + [tail[-1]] if tail else tail
     simple_tail = all(isinstance(st, ast.Assign) and len(st.targets) == 1 and isinstance(st.targets[0], ast.Name)
                       and st.targets[0].id not in (names['part'], names['acc_props'], names['acc_children'], number) for st in tail[:-1])
     if isinstance(ret, ast.Return) and ret.value is not None and simple_tail:
@@ -462,11 +484,59 @@ def grammar(rep):
               'are not those written in the file' % (''.join(lost)[:10], (lost or ['-'])[0]), what='name class contains [0-9a-zA-Z-_]')
 
 
+def inline_generator_helpers(fn, funcs):
+    """`for a, b in _helper(E): BODY` with `def _helper(p): for x in F(p): ...; yield u, v` is read as the helper's loop with BODY
+    in the place of the yield (a, b standing for u, v): a private generator that only splits the work of the loop."""
+    import copy
+    from ..match import _Subst
+
+    def expand(loop):
+        if not (isinstance(loop.iter, ast.Call) and isinstance(loop.iter.func, ast.Name) and loop.iter.func.id in funcs and loop.iter.func.id.startswith('_')
+                and not loop.iter.keywords and not loop.orelse):
+            return None
+        g = funcs[loop.iter.func.id]
+        gb = strip_doc(g.body)
+        params = [a.arg for a in g.args.args]
+        if len(gb) != 1 or not isinstance(gb[0], ast.For) or len(params) != len(loop.iter.args) or g.args.vararg or g.args.kwarg:
+            return None
+        ys = [n for n in ast.walk(g) if isinstance(n, (ast.Yield, ast.YieldFrom))]
+        tgt = loop.target.elts if isinstance(loop.target, ast.Tuple) else [loop.target]
+        if len(ys) != 1 or not isinstance(ys[0], ast.Yield) or ys[0].value is None or not all(isinstance(t, ast.Name) for t in tgt):
+            return None
+        yv = ys[0].value.elts if isinstance(ys[0].value, ast.Tuple) else [ys[0].value]
+        if len(yv) != len(tgt):
+            return None
+        # names the helper binds must not clash with names the caller's body reads
+        gnames = {n.id for n in ast.walk(g) if isinstance(n, ast.Name) and isinstance(n.ctx, ast.Store)}
+        bnames = {n.id for st in loop.body for n in ast.walk(st) if isinstance(n, ast.Name)} - {t.id for t in tgt}
+        if gnames & bnames:
+            return None
+        new = copy.deepcopy(gb[0])
+        new = _Subst(dict(zip(params, loop.iter.args))).visit(new)
+        body = [_Subst({t.id: copy.deepcopy(v) for t, v in zip(tgt, yv)}).visit(copy.deepcopy(st)) for st in loop.body]
+
+        class R(ast.NodeTransformer):
+            def visit_Expr(self, node):
+                if isinstance(node.value, ast.Yield):
+                    return body
+                return node
+        new = R().visit(new)
+        return ast.fix_missing_locations(new)
+
+    class T(ast.NodeTransformer):
+        def visit_For(self, node):
+            self.generic_visit(node)
+            e = expand(node)
+            return e if e is not None else node
+    return ast.fix_missing_locations(T().visit(copy.deepcopy(fn)))
+
+
 def check_layout(rep, methods, funcs, names):
     """The 5-field entry layout written by read() must be the one _parse yields and _find unpacks."""
     parse, read = funcs.get('_parse'), funcs.get('read')
     if parse is None or read is None:
         raise AnalysisError('%s: _parse/read vanished' % FILE)
+    parse = inline_generator_helpers(parse, funcs)
     ys = [n for n in ast.walk(parse) if isinstance(n, ast.Yield)]
     if len(ys) != 1 or not isinstance(ys[0].value, ast.Tuple) or len(ys[0].value.elts) != 6:
         raise AnalysisError('%s:%d _parse does not yield one 6-tuple (indent, length, low, high, props, children)' % (FILE, parse.lineno))
